@@ -37,7 +37,7 @@ import (
 //	mkdir      create the directory Args[0] (relative to the current directory)
 //	write      create the regular file Args[0] (a module whose description is its own path)
 //	remove     remove the regular file Args[0]
-//	read       ms.Read(Args[0])
+//	read       ms.Read(Args[0])   (a module name: a lookup; a name with `/`: the file is read, its directory goes on the path)
 //	find       ms.FindModule(&Import{Name: Args[0], RevisionDate: Args[1] if given})
 //	get        ms.GetModule(Args[0])
 //	process    ms.Parse of a module importing Args[0] (revision-date Args[1] if given) unless done before, then ms.Process()
@@ -152,6 +152,12 @@ type hlook struct {
 	Bound string   // find only: what FindModule returned, when that is not the module fetched
 	After int      // number of layout/path changes since the previous lookup of the history (-1: first lookup)
 	Fails int      // number of earlier lookups of the same name in this history that found nothing
+	// the search path as the calls registered it (spell.go), when it has to be looked at: it is not
+	// ms.Path, or it has entries that are not in clean relative form (nil otherwise)
+	Calls      []string
+	CallsNorm  []string // Calls in clean relative form (nil: no such form)
+	FreshCalls string   // the lookup on a fresh Modules value whose Path is assigned Calls ("" when Calls is ms.Path)
+	Cwd        string   // the current directory (to read absolute names)
 }
 
 type histObs struct {
@@ -241,10 +247,12 @@ func runHistory(work string, c histCase) (obs histObs) {
 	}()
 	tree := cloneTree(c.Root)
 	ms := yang.NewModules()
+	cp := newCallPath()
 	importers := map[string][2]string{} // importer module name -> (imported name, revision-date)
 	changes, first := 0, true
 	fails := map[string]int{}
 	for si, st := range c.Steps {
+		st.Args = substCwd(dir, st.Args)
 		arg := func(i int) string {
 			if i < len(st.Args) {
 				return st.Args[i]
@@ -254,12 +262,15 @@ func runHistory(work string, c histCase) (obs histObs) {
 		switch st.Op {
 		case "addpath":
 			ms.AddPath(st.Args...)
+			cp.add(st.Args...)
 			changes++
 		case "setpath":
 			ms.Path = append([]string{}, st.Args...)
+			cp.set(st.Args...)
 			changes++
 		case "appendpath":
 			ms.Path = append(ms.Path, st.Args...)
+			cp.app(st.Args...)
 			changes++
 		case "mkdir":
 			if !treeAdd(tree, arg(0), false) {
@@ -291,10 +302,27 @@ func runHistory(work string, c histCase) (obs histObs) {
 			changes++
 		case "read", "find", "get", "process":
 			name, rev := arg(0), arg(1)
+			if st.Op == "read" && strings.Contains(name, "/") {
+				// a file read by explicit path: not a lookup of a module by name (part (b) proper compares
+				// those Reads); here it is a step that registers the file's directory
+				known := knownOf(ms)
+				err := ms.Read(name)
+				switch nm := newSince(ms, known); {
+				case len(nm) > 0:
+					cp.readFrom(name, srcFile(nm[0]))
+				case err != nil && !strings.HasPrefix(err.Error(), "no such file"):
+					cp.resync(ms.Path)
+				}
+				changes++
+				continue
+			}
 			if st.Op == "read" || st.Op == "get" {
 				rev = ""
 			}
 			before := append([]string{}, ms.Path...)
+			calls := cp.snapshot()
+			callsNorm, normOK := normPath(dir, calls)
+			callsDiffer := !sameStrings(calls, before)
 			snap := cloneTree(tree)
 			known := knownOf(ms)
 			loaded := func(n, r string) bool {
@@ -368,6 +396,14 @@ func runHistory(work string, c histCase) (obs histObs) {
 			fetched := map[string]*yang.Module{}
 			for _, m := range newSince(ms, known) {
 				fetched[m.Name] = m
+				if st.Op == "read" {
+					cp.readFrom(name, srcFile(m))
+				} else {
+					cp.readFrom("", srcFile(m))
+				}
+			}
+			if st.Op == "read" && readErr != nil && !strings.HasPrefix(readErr.Error(), "no such file") {
+				cp.resync(ms.Path)
 			}
 			if st.Op == "get" && fetched[identOf(name)] == nil && !selfLoaded {
 				// GetModule gives up before Process when the module is not found
@@ -392,6 +428,15 @@ func runHistory(work string, c histCase) (obs histObs) {
 					fails[w.name]++
 				}
 				lk.Fresh = freshLookup(before, lk.Tried)
+				if callsDiffer || (normOK && !sameStrings(callsNorm, calls)) {
+					lk.Calls, lk.Cwd = calls, dir
+					if normOK {
+						lk.CallsNorm = callsNorm
+					}
+					if callsDiffer {
+						lk.FreshCalls = freshLookup(calls, lk.Tried)
+					}
+				}
 				obs.Looks = append(obs.Looks, lk)
 			}
 			first = false
@@ -704,6 +749,17 @@ func firstChosen(answers []string) string {
 
 type histVerdict struct {
 	Model, Spec string // `file <hex>` | none | "" (no claim)
+	SpecCalls   string // the specification on the path as the calls registered it (clean relative form)
+}
+
+// normLine: a Go answer `file <hex name>` with the name in clean relative form.
+func normLine(cwd, l string) string {
+	fs := strings.Fields(l)
+	if len(fs) >= 2 && fs[0] == "file" {
+		b, _ := lib.UnHex(fs[1])
+		return "file " + lib.HexS(normFile(cwd, string(b)))
+	}
+	return l
 }
 
 // judge: does this lookup disagree with anything?  Returns the disagreement, or nil.
@@ -715,6 +771,19 @@ func judgeLook(c histCase, lk hlook, v histVerdict) *lib.Disagreement {
 	modelBad := v.Model != "" && v.Model != lk.Line
 	freshBad := !strings.HasPrefix(lk.Fresh, "err ") && lk.Fresh != lk.Line
 	boundBad := lk.Bound != ""
+	// the path as the calls registered it
+	goNorm := normLine(lk.Cwd, lk.Line)
+	callsSpecBad := lk.Calls != nil && v.SpecCalls != "" && v.SpecCalls != goNorm
+	callsFreshBad := lk.FreshCalls != "" && !strings.HasPrefix(lk.FreshCalls, "err ") && normLine(lk.Cwd, lk.FreshCalls) != goNorm
+	if callsSpecBad || callsFreshBad {
+		d := &lib.Disagreement{Kind: "spec", SpecVerdict: "violates", Input: c, Go: unhexLine(goNorm), Replay: map[string]any{"history": c}}
+		d.Model = map[string]any{"model_on_ms_path": unhexLine(v.Model), "specification_on_ms_path": unhexLine(v.Spec), "ms_path": lk.Path,
+			"path_registered_by_the_calls": lk.Calls, "specification_on_registered_path": unhexLine(v.SpecCalls), "fresh_modules_registered_path": unhexLine(normLine(lk.Cwd, lk.FreshCalls))}
+		d.What = fmt.Sprintf("C13 (b) `a module that is not yet loaded is fetched from the first search-path directory holding a candidate` fails: "+
+			"after %s the lookup of %s (step %d) answers [%s]; %s", describeHistory(c, lk.Step), lk.Name, lk.Step, unhexLine(goNorm),
+			callsClause(lk, unhexLine(v.SpecCalls), unhexLine(normLine(lk.Cwd, lk.FreshCalls))))
+		return d
+	}
 	if !specBad && !modelBad && !freshBad && !boundBad {
 		return nil
 	}
@@ -762,7 +831,16 @@ func askLook(d *lib.Driver, lk hlook) histVerdict {
 		s, _ := d.Ask(findRequest("spec.find", lk.Root, lk.Path, n))
 		ma, sa = append(ma, m), append(sa, s)
 	}
-	return histVerdict{Model: firstChosen(ma), Spec: firstChosen(sa)}
+	v := histVerdict{Model: firstChosen(ma), Spec: firstChosen(sa)}
+	if lk.CallsNorm != nil {
+		var ca []string
+		for _, n := range lk.Tried {
+			s, _ := d.Ask(findRequest("spec.find", lk.Root, lk.CallsNorm, n))
+			ca = append(ca, s)
+		}
+		v.SpecCalls = firstChosen(ca)
+	}
+	return v
 }
 
 func partH(f *lib.Flags, res *lib.Result, distinct *lib.Distinct, work string) int64 {
@@ -785,11 +863,23 @@ func partH(f *lib.Flags, res *lib.Result, distinct *lib.Distinct, work string) i
 	for i := 0; i < nRand; i++ {
 		cases = append(cases, randHistory(rng))
 	}
+	// one directory in several spellings, entries added by findFile itself (spell.go)
+	sp := enumSpellHistories(f.Thorough())
+	nSpell := len(sp)
+	cases = append(cases, sp...)
+	nSpellRand := 500
+	if f.Thorough() {
+		nSpellRand = 15000
+	}
+	rng4 := f.Rand(4)
+	for i := 0; i < nSpellRand; i++ {
+		cases = append(cases, randSpellHistory(rng4))
+	}
 	type ref struct{ ci, li, n int } // case, lookup, number of names tried
 	var refs []ref
 	var reqs []string
 	obs := make([]histObs, len(cases))
-	var nontrivial, skipped, invalid, after, afterFail int64
+	var nontrivial, skipped, invalid, after, afterFail, spelled, callsNotPath int64
 	for i, c := range cases {
 		obs[i] = runHistory(work, c)
 		skipped += int64(obs[i].Skipped)
@@ -806,6 +896,15 @@ func partH(f *lib.Flags, res *lib.Result, distinct *lib.Distinct, work string) i
 			refs = append(refs, ref{i, li, len(lk.Tried)})
 			for _, n := range lk.Tried {
 				reqs = append(reqs, findRequest("find", lk.Root, lk.Path, n), findRequest("spec.find", lk.Root, lk.Path, n))
+				if lk.CallsNorm != nil {
+					reqs = append(reqs, findRequest("spec.find", lk.Root, lk.CallsNorm, n))
+				}
+			}
+			if lk.Calls != nil {
+				spelled++
+				if lk.FreshCalls != "" {
+					callsNotPath++
+				}
 			}
 			if lk.After > 0 {
 				after++
@@ -833,12 +932,19 @@ func partH(f *lib.Flags, res *lib.Result, distinct *lib.Distinct, work string) i
 	k := 0
 	for ri, r := range refs {
 		c, lk := cases[r.ci], obs[r.ci].Looks[r.li]
-		var ma, sa []string
+		var ma, sa, ca []string
 		for j := 0; j < r.n; j++ {
 			ma, sa = append(ma, ans[k]), append(sa, ans[k+1])
 			k += 2
+			if lk.CallsNorm != nil {
+				ca = append(ca, ans[k])
+				k++
+			}
 		}
 		v := histVerdict{Model: firstChosen(ma), Spec: firstChosen(sa)}
+		if lk.CallsNorm != nil {
+			v.SpecCalls = firstChosen(ca)
+		}
 		if v.Model == "" {
 			noClaim++
 		}
@@ -846,11 +952,11 @@ func partH(f *lib.Flags, res *lib.Result, distinct *lib.Distinct, work string) i
 			found++
 		}
 		if d := judgeLook(c, lk, v); d != nil {
-			if len(res.Disagreements) >= 50 {
+			if len(res.Disagreements) >= 50 && d.SpecVerdict != "violates" {
 				res.Count("disagreements_not_examined", 1)
 				continue
 			}
-			res.AddDisagreement(*d)
+			res.AddDisagreement(*d) // (when full, one with a concrete failing input displaces one without)
 			continue
 		}
 		if ri%(len(refs)/3+1) == 5 {
@@ -864,6 +970,10 @@ func partH(f *lib.Flags, res *lib.Result, distinct *lib.Distinct, work string) i
 	res.Distribution["history_lookups_of_loaded_modules_not_compared"] = skipped
 	res.Distribution["history_lookups_that_found_a_file"] = found
 	res.Distribution["history_lookups_outside_model"] = noClaim
+	res.Distribution["history_spelling_enumerated"] = nSpell
+	res.Distribution["history_spelling_random"] = nSpellRand
+	res.Distribution["history_lookups_judged_on_the_path_registered_by_the_calls_in_clean_form"] = spelled
+	res.Distribution["history_lookups_where_ms_path_is_not_the_registered_path"] = callsNotPath
 	res.Distribution["history_lookups_after_a_change"] = after
 	res.Distribution["history_lookups_after_a_change_and_an_earlier_failure_of_the_same_name"] = afterFail
 	res.Evaluations += int64(len(refs))
@@ -886,6 +996,9 @@ func replayHistory(d *lib.Driver, work string, c histCase) int {
 		v := askLook(d, lk)
 		fmt.Printf("step %d %s(%s %s) with Path %q\ngo:      %s\nfresh:   %s\nmodel:   %s\nspec:    %s\n", lk.Step, lk.Op, lk.Name, lk.Rev, lk.Path,
 			unhexLine(lk.Line), unhexLine(lk.Fresh), unhexLine(v.Model), unhexLine(v.Spec))
+		if lk.Calls != nil {
+			fmt.Printf("path registered by the calls: %q (clean relative form %q)\nspec on it:  %s\nfresh on it: %s\n", lk.Calls, lk.CallsNorm, unhexLine(v.SpecCalls), unhexLine(lk.FreshCalls))
+		}
 		if dd := judgeLook(c, lk, v); dd != nil {
 			fmt.Printf("verdict: %s %s\n", dd.Kind, dd.SpecVerdict)
 			rc = 1
